@@ -87,7 +87,7 @@ harness!(new_reads_layout, 34, {
     assert!(Sbbf::new(&bytes[..cut]).is_err());
 });
 
-// @harness props=C20,C32 tier=thorough timeout=3000 cfg=verif_ccap64 desc="Sbbf::new(to_bytes(f)) has the same blocks as f (1..=2 blocks)"
+// @harness props=C20,C32 tier=thorough timeout=900 cfg=verif_ccap64 desc="(attempted; did not finish in 3000 s; its two halves to_bytes_layout and new_reads_layout are in the quick tier) Sbbf::new(to_bytes(f)) has the same blocks as f (1..=2 blocks)"
 harness!(bytes_roundtrip, 67, {
     let n: usize = vnd::any();
     vnd::assume(n >= 1 && n <= 2);
